@@ -23,6 +23,7 @@ type Obligation struct {
 	Hyp     *Term // path condition (includes assumptions)
 	Goal    *Term
 	Cover   bool // must be SAT (vacuity guard)
+	Advisory bool // cover whose refutation is reported but is not a failure (a return may be dead code)
 	Pos     string
 	Inputs  []*Term // terms whose model values are wanted on sat
 	x       *Exec
@@ -42,6 +43,7 @@ type Config struct {
 	TimeoutMs   int
 	DumpDir     string
 	Verbose     bool
+	CoverReturns bool // advisory reachability check of every return of the function under contract
 }
 
 type Exec struct {
@@ -74,6 +76,8 @@ type Exec struct {
 	inputs    []*Term
 	curEffFn  *ssa.Function
 	freshRefs map[int]bool
+	topExits  []exitRec // return points of the function under contract (postconditions are checked per return)
+	baseNow   map[int]*Term // heap variable (term id) -> allocation clock when its contents were established
 	amap      *assertMap
 }
 
@@ -109,7 +113,7 @@ func NewExec(ld *Loaded, cfg *Config) *Exec {
 	x := &Exec{ld: ld, tb: NewTB(), cfg: cfg,
 		leafCache: map[string][]LeafInfo{}, classSort: map[string]*Sort{}, refAx: map[int]bool{},
 		originID: map[string]int{}, typeIDs: map[string]int{}, oblCount: map[string]int{}, notes: map[string]int{},
-		assumed: map[string]bool{}, strConst: map[string]*Term{}, fnInfos: map[*ssa.Function]*fnInfo{}, effCache: map[*ssa.Function]*Effects{}, freshRefs: map[int]bool{}}
+		assumed: map[string]bool{}, strConst: map[string]*Term{}, fnInfos: map[*ssa.Function]*fnInfo{}, effCache: map[*ssa.Function]*Effects{}, freshRefs: map[int]bool{}, baseNow: map[int]*Term{}}
 	x.tb.known = func(a, b *Term) bool {
 		// two different freshly allocated references never coincide; a fresh reference is not nil
 		if a == b {
@@ -642,7 +646,7 @@ func (x *Exec) execInstr(fr *Frame, st *State, ins ssa.Instruction) {
 		if i.Call.Value != nil {
 			fnv = x.val(fr, i.Call.Value)
 		}
-		fr.defers = append(fr.defers, deferEntry{cond: st.reach, call: &i.Call, fr: fr, pos: i.Pos(), args: args, fnv: fnv})
+		fr.defers = append(fr.defers, deferEntry{cond: x.pcOf(st), call: &i.Call, fr: fr, pos: i.Pos(), args: args, fnv: fnv})
 	case *ssa.RunDefers:
 		x.runDefers(fr, st, i)
 	case *ssa.SliceToArrayPointer:
@@ -657,21 +661,89 @@ func (x *Exec) execInstr(fr *Frame, st *State, ins ssa.Instruction) {
 	}
 }
 
+// Allocation is modelled by birth time stamps: birth(r) is fixed per object, the state carries a
+// clock g:now, an object is allocated in a state iff birth(r) < now.  Allocation stamps the new
+// object with the current clock and advances it; code that may allocate (calls, loops) advances
+// the clock by an unknown amount.  Every reference stored in a heap variable denotes an object
+// born before the clock value at which the variable's contents were established (baseNow).
+func (x *Exec) now(st *State) *Term { return x.heapGet(st, "g:now", x.tb.BV(64)) }
+
+func (x *Exec) birth(r *Term) *Term { return x.tb.UF("birth", x.tb.BV(64), r) }
+
+func (x *Exec) allocAt(now, r *Term) *Term { return x.tb.ULt(x.birth(r), now) }
+
 func (x *Exec) freshRef(st *State, hint string) *Term {
 	bv64 := x.tb.BV(64)
 	r := x.tb.Fresh(hint, bv64)
-	al := x.heapGet(st, "g:alloc", x.tb.Array(bv64, x.tb.Bool))
-	x.assume(st, x.tb.And(x.nonNil(r), x.tb.Not(x.tb.Select(al, r)), x.tb.Eq(x.tb.UF("origin", bv64, r), x.tb.BVInt(0, 64))))
-	x.heapSet(st, "g:alloc", x.tb.Store(al, r, x.tb.True))
+	now := x.now(st)
+	x.assume(st, x.tb.And(x.nonNil(r), x.tb.Eq(x.birth(r), now), x.tb.Eq(x.tb.UF("origin", bv64, r), x.tb.BVInt(0, 64))))
+	x.heapSet(st, "g:now", x.tb.Add(now, x.tb.BVInt(1, 64)))
 	x.freshRefs[r.ID] = true
 	return r
 }
 
-// assumeAllocated: a reference obtained from the pre-existing world is allocated (or nil).
+// bumpNow: unknown code ran; it may have allocated objects.
+func (x *Exec) bumpNow(st *State) {
+	d := x.tb.Fresh("dn", x.tb.BV(64))
+	x.assume(st, x.tb.ULe(d, x.tb.BVInt(1<<32, 64)))
+	x.heapSet(st, "g:now", x.tb.Add(x.now(st), d))
+}
+
+// assumeAllocated: a reference obtained from the heap or the environment is nil or allocated;
+// where its term shows which heap variable it was read from, it was allocated already when
+// that variable's contents were established (so it is none of the objects created since).
 func (x *Exec) assumeAllocated(st *State, r *Term) {
-	bv64 := x.tb.BV(64)
-	al := x.heapGet(st, "g:alloc", x.tb.Array(bv64, x.tb.Bool))
-	x.assume(st, x.tb.Or(x.tb.Eq(r, x.tb.BVInt(0, 64)), x.tb.Select(al, r)))
+	x.assume(st, x.allocFact(st, r, 0))
+}
+
+func (x *Exec) allocFact(st *State, r *Term, depth int) *Term {
+	tb := x.tb
+	if x.freshRefs[r.ID] || (r.Op == "bv" && r.Val.Sign() == 0) {
+		return tb.True
+	}
+	if depth < 24 {
+		switch r.Op {
+		case "ite":
+			return tb.Ite(r.Args[0], x.allocFact(st, r.Args[1], depth+1), x.allocFact(st, r.Args[2], depth+1))
+		case "select":
+			return x.allocSel(st, r.Args[0], []*Term{r.Args[1]}, depth+1)
+		}
+	}
+	return tb.Or(tb.Eq(r, tb.BVInt(0, 64)), x.allocAt(x.now(st), r))
+}
+
+// allocSel: allocation fact for the reference select(...select(a, path[0])..., path[n-1]).
+func (x *Exec) allocSel(st *State, a *Term, path []*Term, depth int) *Term {
+	tb := x.tb
+	full := func() *Term {
+		t := a
+		for _, i := range path {
+			t = tb.Select(t, i)
+		}
+		return t
+	}
+	if nw, ok := x.baseNow[a.ID]; ok {
+		v := full()
+		return tb.Or(tb.Eq(v, tb.BVInt(0, 64)), x.allocAt(nw, v))
+	}
+	if depth < 24 {
+		switch a.Op {
+		case "ite":
+			return tb.Ite(a.Args[0], x.allocSel(st, a.Args[1], path, depth+1), x.allocSel(st, a.Args[2], path, depth+1))
+		case "select":
+			return x.allocSel(st, a.Args[0], append([]*Term{a.Args[1]}, path...), depth+1)
+		case "store":
+			var hit *Term
+			if len(path) == 1 {
+				hit = x.allocFact(st, a.Args[2], depth+1)
+			} else {
+				hit = x.allocSel(st, a.Args[2], path[1:], depth+1)
+			}
+			return tb.Ite(tb.Eq(path[0], a.Args[1]), hit, x.allocSel(st, a.Args[0], path, depth+1))
+		}
+	}
+	v := full()
+	return tb.Or(tb.Eq(v, tb.BVInt(0, 64)), x.allocAt(x.now(st), v))
 }
 
 func (x *Exec) unop(fr *Frame, st *State, i *ssa.UnOp) Val {
@@ -1029,6 +1101,10 @@ func (x *Exec) mapInit(st *State, t types.Type, ref *Term) {
 	cls := mapClass(t) + "#len"
 	h := x.heapGet(st, cls, tb.Array(tb.BV(64), tb.BV(64)))
 	x.heapSet(st, cls, tb.Store(h, ref, tb.BVInt(0, 64)))
+	// a new map holds no key
+	hc := mapClass(t) + "#has"
+	ph := x.heapGet(st, hc, x.locArraySort(2, tb.Bool))
+	x.heapSet(st, hc, tb.Store(ph, ref, tb.ConstArray(tb.Array(tb.BV(64), tb.Bool), tb.False)))
 }
 
 func (x *Exec) mapKeyTerm(k Val) (*Term, bool) {
@@ -1067,6 +1143,11 @@ func (x *Exec) lookup(fr *Frame, st *State, i *ssa.Lookup) Val {
 		}
 		res = Val{T: vt, L: out}
 		x.assumeWF(st, vt, res.L)
+		for j, l := range vls {
+			if l.Kind == LRef && l.Path != "#val" {
+				x.assumeAllocated(st, out[j])
+			}
+		}
 	} else {
 		res = x.freshVal(vt, "mapv")
 		x.assumeWF(st, vt, res.L)
@@ -1139,9 +1220,9 @@ func (x *Exec) runDefers(fr *Frame, st *State, instr ssa.Instruction) {
 			return
 		}
 		on := st.clone()
-		x.assume(on, d.cond)
+		x.branch(on, d.cond)
 		off := st.clone()
-		x.assume(off, x.tb.Not(d.cond))
+		x.branch(off, x.tb.Not(d.cond))
 		if !on.reach.IsFalse() {
 			x.callCommon(fr, on, nil, d.call, d.args, d.fnv, d.pos)
 		}
